@@ -185,6 +185,27 @@ func vfRunC20(t *testing.T, job *vfC20Job) (out vfC20Out) {
 							if gotResp != 1 || gotAck != 1 {
 								violate("well-formed-stream-not-served", fmt.Sprintf("relayed %d responses and %d acks, want 1 and 1", gotResp, gotAck))
 							}
+							// the other streams end one by one: the well-formed stream keeps being served after each of them
+							for _, l := range streams {
+								if l == good || l.ended {
+									continue
+								}
+								l.ss.cancel()
+								synctest.Wait()
+								time.Sleep(2 * time.Second)
+								synctest.Wait()
+								if blocked(fmt.Sprintf("after the stream %+v ended next to the well-formed one", l.open)) {
+									break
+								}
+								r0, a0 := gotResp, gotAck
+								cs.deliver(vfItem{resp: vfFwdResp(0)})
+								good.ss.deliver(vfItem{req: vfFwdAck(0)})
+								synctest.Wait()
+								if gotResp != r0+1 || gotAck != a0+1 {
+									violate("well-formed-stream-disturbed-by-another-stream-ending", fmt.Sprintf("after the stream %+v ended, the well-formed stream relayed %d responses and %d acks of 1 and 1 (ended=%v)", l.open, gotResp-r0, gotAck-a0, good.ended))
+									break
+								}
+							}
 						}
 					} else if len(sm.GetLocalShards()) == 0 {
 						violate("well-formed-stream-not-served", "routing mode: the well-formed stream did not register its shard")
@@ -278,6 +299,16 @@ func vfC20Histories(thorough bool) []vfC20Job {
 					}
 					jobs = append(jobs, vfC20Job{Mode: mode, Opens: []vfOpen{o}})
 				}
+			}
+			// streams that share the server shard (the index all bookkeeping is keyed on) with the well-formed stream
+			// opened afterwards, from the same and from other client shards
+			for _, cs := range []string{"1", "5"} {
+				o := good
+				o.ServerShard, o.ClientShard, o.Keep = "7", cs, keep
+				jobs = append(jobs, vfC20Job{Mode: mode, Opens: []vfOpen{o}})
+				o2 := o
+				o2.ClientShard = "2"
+				jobs = append(jobs, vfC20Job{Mode: mode, Opens: []vfOpen{o, o2}})
 			}
 			// pairs on the index the bookkeeping uses, and on both shard ids together
 			for _, a := range vfC20PairAlphabet {
